@@ -65,4 +65,99 @@ theorem C12_model_result_is_a_function (cfg : Config) (s1 s2 : State N) (h d : N
   simp only [step, hh, hd]
   split <;> rfl
 
+/-! ### the machine instantiated: N goroutines calling `Search`
+
+Shared memory holds documents and compiled expressions; goroutine `t` runs one
+`Search` of document `docIx t` with compiled expression `astIx t` and writes the
+answer into a slot it owns.  Under EVERY schedule each goroutine that got to run
+holds exactly what the call returns when made alone — `searchCompiled` of the
+initial document and expression — and the shared cells are what they were. -/
+
+inductive Loc (T : Type) where
+  | doc (i : Nat) | ast (i : Nat) | result (t : T)
+  deriving DecidableEq
+
+inductive Cell (N : Type) where
+  | doc (v : Val N) | ast (n : Node N) | res (r : Option (Res (Val N)))
+
+def searchSys {T : Type} (cfg : Config) (docIx astIx : T → Nat) : Threads.Sys T (Loc T) (Cell N) Bool where
+  owner := fun l => match l with | .result t => some t | _ => none
+  step := fun t h pc =>
+    if pc then (true, [])
+    else match h (.ast (astIx t)), h (.doc (docIx t)) with
+      | .ast a, .doc d => (true, [(.result t, .res (some (searchCompiled cfg a d)))])
+      | _, _ => (true, [(.result t, .res none)])
+
+theorem searchSys_writesPrivate {T : Type} [DecidableEq T] (cfg : Config) (docIx astIx : T → Nat) :
+    Threads.WritesPrivate (searchSys (N := N) cfg docIx astIx) := by
+  intro t h pc lv hlv
+  simp only [searchSys] at hlv ⊢
+  split at hlv
+  · simp at hlv
+  · split at hlv <;> (simp at hlv; subst hlv; rfl)
+
+theorem searchSys_readsOwn {T : Type} [DecidableEq T] (cfg : Config) (docIx astIx : T → Nat) :
+    Threads.ReadsOwn (searchSys (N := N) cfg docIx astIx) := by
+  intro t h h' pc hagree
+  simp only [searchSys]
+  rw [hagree (.ast (astIx t)) (Or.inl rfl), hagree (.doc (docIx t)) (Or.inl rfl)]
+
+/-- the solo run: after one or more steps of `t` alone, its slot holds the answer -/
+theorem searchSys_solo {T : Type} [DecidableEq T] (cfg : Config) (docIx astIx : T → Nat) (c : Threads.Conf T (Loc T) (Cell N) Bool)
+    (t : T) (a : Node N) (d : Val N) (hpc : c.pcs t = false) (ha : c.heap (.ast (astIx t)) = .ast a) (hd : c.heap (.doc (docIx t)) = .doc d) :
+    ∀ n, ((searchSys cfg docIx astIx).run c (List.replicate (n + 1) t)).heap (.result t) = .res (some (searchCompiled cfg a d)) := by
+  -- first step
+  have h1 : ((searchSys (N := N) cfg docIx astIx).exec c t).heap (.result t) = .res (some (searchCompiled cfg a d)) ∧
+      ((searchSys (N := N) cfg docIx astIx).exec c t).pcs t = true := by
+    simp [Threads.Sys.exec, searchSys, hpc, ha, hd, Threads.write]
+  -- once done, further steps change nothing
+  have hdone : ∀ (c' : Threads.Conf T (Loc T) (Cell N) Bool), c'.pcs t = true →
+      ∀ m, ((searchSys (N := N) cfg docIx astIx).run c' (List.replicate m t)).heap = c'.heap ∧
+        ((searchSys (N := N) cfg docIx astIx).run c' (List.replicate m t)).pcs t = true := by
+    intro c' hp m
+    induction m generalizing c' with
+    | zero => exact ⟨rfl, hp⟩
+    | succ m ih =>
+      simp only [Threads.Sys.run, List.replicate_succ, List.foldl_cons]
+      have he : (searchSys (N := N) cfg docIx astIx).exec c' t = c' := by
+        cases c' with
+        | mk heap pcs =>
+          simp only [Threads.Sys.exec, searchSys] at hp ⊢
+          simp only [hp, if_true, Threads.write]
+          congr 1
+          funext u
+          by_cases hu : u = t
+          · subst hu; simp [hp]
+          · simp [hu]
+      rw [he]
+      exact ih c' hp
+  intro n
+  simp only [Threads.Sys.run, List.replicate_succ, List.foldl_cons]
+  have := hdone _ h1.2 n
+  simp only [Threads.Sys.run] at this
+  rw [this.1]
+  exact h1.1
+
+/-- **Every interleaving**: a goroutine that was scheduled at least once holds the answer of its
+    own call made alone, whatever the other goroutines did in between. -/
+theorem C12_concurrent_searches {T : Type} [DecidableEq T] (cfg : Config) (docIx astIx : T → Nat)
+    (c : Threads.Conf T (Loc T) (Cell N) Bool) (sched : List T) (t : T) (a : Node N) (d : Val N)
+    (hpc : c.pcs t = false) (ha : c.heap (.ast (astIx t)) = .ast a) (hd : c.heap (.doc (docIx t)) = .doc d)
+    (hrun : t ∈ sched) :
+    ((searchSys cfg docIx astIx).run c sched).heap (.result t) = .res (some (searchCompiled cfg a d)) := by
+  have hagree := Threads.schedule_independent (searchSys (N := N) cfg docIx astIx)
+    (searchSys_writesPrivate cfg docIx astIx) (searchSys_readsOwn cfg docIx astIx) c sched t
+  have hcount : 0 < sched.count t := List.count_pos_iff.mpr hrun
+  obtain ⟨n, hn⟩ : ∃ n, sched.count t = n + 1 := ⟨sched.count t - 1, by omega⟩
+  rw [hagree.2 (.result t) (Or.inr rfl), hn]
+  exact searchSys_solo cfg docIx astIx c t a d hpc ha hd n
+
+/-- … and the documents and compiled expressions are what they were. -/
+theorem C12_concurrent_searches_leave_shared {T : Type} [DecidableEq T] (cfg : Config) (docIx astIx : T → Nat)
+    (c : Threads.Conf T (Loc T) (Cell N) Bool) (sched : List T) (i : Nat) :
+    ((searchSys cfg docIx astIx).run c sched).heap (.doc i) = c.heap (.doc i) ∧
+    ((searchSys cfg docIx astIx).run c sched).heap (.ast i) = c.heap (.ast i) :=
+  ⟨Threads.shared_unchanged _ (searchSys_writesPrivate cfg docIx astIx) c sched _ rfl,
+   Threads.shared_unchanged _ (searchSys_writesPrivate cfg docIx astIx) c sched _ rfl⟩
+
 end Jmes.Props
